@@ -102,7 +102,11 @@ class Run:
             if n.startswith(self.prop + "-"):
                 os.unlink(os.path.join(EVID, "violations", n))
         lines = []
+        seen_known = set()
         for k, rec in self.known_hits:
+            if rec["key"] in seen_known:
+                continue        # the same finding met again under another feature configuration
+            seen_known.add(rec["key"])
             lines.append("KNOWN-FINDING: property=%s %s [%s]" % (self.prop, k.get("what", rec["what"]), rec["key"]))
         for i, v in enumerate(self.violations):
             p = os.path.join(EVID, "violations", "%s-%d.json" % (self.prop, i))
